@@ -131,7 +131,7 @@ func runC20(c *mon.Ctx) {
 		for otherUser == user {
 			otherUser = gen.Pick(r, users)
 		}
-		dur := gen.Pick(r, []int{0, 30, 120, 3600, 86400, 59, 60, 61, 1 << 40, 9223372036854775807, 9223372036854774807})
+		dur := gen.Pick(r, []int{0, 30, 120, 3600, 86400, 59, 60, 61, 1 << 34, 1 << 40, 1 << 62, 1<<62 + 12345, 9223372036854775807, 9223372036854774807})
 		ar := r.Fork("alter")
 		desc := map[string]any{"secret_hex": fmt.Sprintf("%x", secret), "server": server, "user": user, "duration": dur}
 		c.Case("token", desc, func() {
@@ -368,6 +368,24 @@ func runC20(c *mon.Ctx) {
 		pollFor = 66 * time.Second
 		spread = true
 		c.Note("expiry caveat is not in absolute Unix seconds: real-time monitor extended to %v", pollFor)
+	}
+	if c.Shard == 0 {
+		// durations that have already elapsed when the token is issued, small and astronomically large ones: whatever
+		// the arithmetic behind the expiry does with them, such a token never validates
+		for _, dur := range []int{-1, -60, -3600, -(1 << 31), -(1 << 34), -(1 << 40), -(1 << 62), -9223372036854775807} {
+			c.Case("token:negative-duration", map[string]any{"duration": dur}, func() {
+				c.Nontrivial(fmt.Sprintf("negative-duration|%d", dur))
+				op := tokens.TokenOptions{ServerPrivateKey: []byte("negative-duration-secret"), ServerName: "example.org", UserID: "@alice:example.org", Duration: dur}
+				tok, err := tokens.GenerateLoginToken(op)
+				c.Count("issued_with_negative_duration")
+				if err != nil {
+					return
+				}
+				if err := tokens.ValidateToken(op, tok); err == nil {
+					c.Failf("token:valid-after-expiry:negative-duration", "a token issued for %d seconds (elapsed before it was issued) validates", dur)
+				}
+			})
+		}
 	}
 	c.Case("realtime-expiry", map[string]any{"durations": durs, "poll_seconds": pollFor.Seconds()}, func() {
 		start := time.Now()
